@@ -382,9 +382,13 @@ def run_one(tape, cfg):
                                                for _ in range(tape.draw(9, "slen")))
                         out.probe("serialize_string_value")
                     hist.append(["serialize", t])
-                    back = dc.deserialize(dc.serialize(t))
-                    if back != t:
-                        out.violate("serialize_roundtrip", f"{t} -> {back}")
+                    try:
+                        back = dc.deserialize(dc.serialize(t))
+                    except Exception as e:  # noqa: BLE001
+                        out.violate("serialize_roundtrip", f"{t}: {type(e).__name__} at {exc_site(e)}: {e}")
+                    else:
+                        if back != t:
+                            out.violate("serialize_roundtrip", f"{t} -> {back}")
             abstract.add((len(stack), len(verif_view(conf))))
         # unwind the remaining contexts
         while stack and out.status != "violation":
